@@ -6,15 +6,17 @@ import camp_decode as C
 import proc
 
 
-def build_cases(ck, valid=True, malformed=True):
-    V = C.gen_valid(ck.rng, ck.quick) if valid else []
+def build_cases(ck, valid=True, malformed=True, heavy=False):
+    V = C.gen_valid(ck.rng, ck.quick, heavy=heavy) if valid else []
     M = C.gen_malformed(ck.rng, ck.quick) if malformed else []
     cases = C.dedupe(V + M)
     big = []
     for c in cases:
         # decompression bombs: python ibwt on 46 MB is too slow; libbz2 is the
         # oracle there (flagged)
-        if c.name in ('repo-ch255.bz2', 'repo-idx899999.bz2'):
+        if c.expect is not None and c.tag == 'full-block-18001-groups':
+            big.append(c.name)      # expectation known from construction
+        elif c.name in ('repo-ch255.bz2', 'repo-idx899999.bz2'):
             try:
                 c.expect = B.libbz2_decode(c.data)
                 c.why = None
